@@ -145,6 +145,15 @@ def run_case(case):
                 res.check(m["imSampRate"] == 2500, "lfp:meta-rate", f"{label}: LF meta imSampRate={m['imSampRate']}")
                 res.check(ap == 0 and lf + sy == len(c) and int(m["nSavedChans"]) == len(c), "lfp:meta-channels",
                           f"{label}: shank {s}: LF meta snsApLfSy={m['snsApLfSy']} nSavedChans={m['nSavedChans']} but the file has {len(c)} columns")
+                # the other places where the header states how many channels the file holds: the acquired counts (no AP channel in an LF stream)
+                # and, for split shanks, the saved-channel subset
+                aap, alf, asy = [int(v) for v in m["acqApLfSy"]]
+                nsub = 0
+                for part in str(m["snsSaveChanSubset"]).split(","):
+                    a = part.split(":")
+                    nsub += int(float(a[-1])) - int(float(a[0])) + 1
+                res.check(aap == 0 and alf + asy == len(c) and (nsub == len(c) or str(m["snsSaveChanSubset"]) == "all"), "lfp:meta-channels:acquired-or-subset",
+                          f"{label}: shank {s}: LF meta acqApLfSy={m['acqApLfSy']} snsSaveChanSubset={m['snsSaveChanSubset']!r} for a file of {len(c)} columns")
                 res.check(int(m["fileSizeBytes"]) == f.stat().st_size or compress, "lfp:meta-size", f"{label}: fileSizeBytes {m['fileSizeBytes']} vs {f.stat().st_size}")
                 sr = spikeglx.Reader(f, sort=False)
                 res.check(sr.type == "lf" and sr.shape == (nlf, len(c)) and sr.fs == 2500, "lfp:reader-shape",
